@@ -344,6 +344,8 @@ func kConfigs() []*KConfig {
 		{Name: "K5a-sk-only", Spec: SpecSKOnly, Alpha: quickA},
 		{Name: "K5b-ik-only", Spec: SpecIKOnly, Alpha: quickA},
 		{Name: "K6-shared-lru-2", Spec: SpecShared("lru", 2), Alpha: quickA},
+		{Name: "K7-narrow-deep", Spec: SpecDefault, Alpha: KAlphabet{Ticks: []int{R + 1, 2*R + 1, E - P - 1}, Narrow: true}},
+		{Name: "K7s-narrow-deep-shared", Spec: SpecShared("lru", 2), Alpha: KAlphabet{Ticks: []int{R + 1, 2*R + 1, E - P - 1}, Narrow: true}},
 	}
 	for _, c := range append([]*KConfig{}, cs...) {
 		f := *c
@@ -385,11 +387,12 @@ func kPlan(thorough bool) []*KConfig {
 		return c
 	}
 	if !thorough {
-		return []*KConfig{pick("K1-default", 5), pick("K2-nocache", 4), pick("K3a-shared-lru-1", 5), pick("K4-sessions-slru-1", 4)}
+		return []*KConfig{pick("K1-default", 5), pick("K2-nocache", 4), pick("K3a-shared-lru-1", 5), pick("K4-sessions-slru-1", 4), pick("K7-narrow-deep", 6)}
 	}
 	return []*KConfig{
 		pick("K1-default", 6), pick("K2-nocache", 5), pick("K3a-shared-lru-1", 6), pick("K3b-shared-lfu-1", 5), pick("K3c-shared-slru-1", 5), pick("K3d-shared-tinylfu-1", 5),
 		pick("K4-sessions-slru-1", 5), pick("K5a-sk-only", 5), pick("K5b-ik-only", 5), pick("K6-shared-lru-2", 5), pick("K1-default-full", 5),
+		pick("K7-narrow-deep", 8), pick("K7s-narrow-deep-shared", 7),
 	}
 }
 
